@@ -127,7 +127,8 @@ bool Buffer::ensureWritableSize(size_t write_size)
 
 void Buffer::hasWritten(size_t write_size)
 {
-    if (write_index_ + write_size > buffer_size_) {
+    //! compare without adding: write_index_ + write_size may wrap around for huge write_size
+    if (write_size > buffer_size_ - write_index_) {
         write_index_ = buffer_size_;
     } else {
         write_index_ += write_size;
@@ -146,12 +147,12 @@ size_t Buffer::append(const void *p_data, size_t data_size)
 
 void Buffer::hasRead(size_t read_size)
 {
-    if (read_index_ + read_size > write_index_) {
+    //! compare without adding: read_index_ + read_size may wrap around for huge read_size,
+    //! which moved read_index_ backwards and exposed already consumed bytes again
+    if (read_size >= write_index_ - read_index_) {
         read_index_ = write_index_ = 0;
     } else {
         read_index_ += read_size;
-        if (read_index_ == write_index_)
-            read_index_ = write_index_ = 0;
     }
 }
 
